@@ -123,11 +123,11 @@ func reposMapDecode(b []byte) (ReposMap, error) {
 	}
 
 	// Length
-	l := r.uvarint()
+	l := r.count()
 	m := make(map[uint32]MinimalRepoListEntry, l)
 
 	// Pre-allocate slice for all branches
-	allBranchesLen := r.uvarint()
+	allBranchesLen := r.count()
 	allBranches := make([]RepositoryBranch, 0, allBranchesLen)
 
 	for range l {
@@ -137,7 +137,7 @@ func reposMapDecode(b []byte) (ReposMap, error) {
 		if readIndexTime {
 			indexTimeUnix = int64(r.uvarint())
 		}
-		lb := r.uvarint()
+		lb := r.count()
 		for range lb {
 			allBranches = append(allBranches, RepositoryBranch{
 				Name:    r.str(),
@@ -163,7 +163,8 @@ type binaryReader struct {
 
 func (b *binaryReader) uvarint() int {
 	x, n := binary.Uvarint(b.b)
-	if n < 0 {
+	// n == 0: the input ends inside the varint.
+	if n <= 0 {
 		b.b = nil
 		b.err = fmt.Errorf("malformed %s", b.typ)
 		return 0
@@ -172,9 +173,22 @@ func (b *binaryReader) uvarint() int {
 	return int(x)
 }
 
+// count reads the number of elements of a collection. Every element takes
+// at least one byte, so a count beyond the remaining input is malformed;
+// rejecting it keeps garbage from driving huge allocations or loops.
+func (b *binaryReader) count() int {
+	n := b.uvarint()
+	if n < 0 || n > len(b.b) {
+		b.b = nil
+		b.err = fmt.Errorf("malformed %s", b.typ)
+		return 0
+	}
+	return n
+}
+
 func (b *binaryReader) str() string {
 	l := b.uvarint()
-	if l > len(b.b) {
+	if l < 0 || l > len(b.b) {
 		b.b = nil
 		b.err = fmt.Errorf("malformed %s", b.typ)
 		return ""
